@@ -6,11 +6,27 @@ CLAIMS = {
 }
 exec(open('/verif/tools/claims.py').read())
 props=[json.loads(l) for l in open('/verif/properties.jsonl')]
+import os,re
+RULES={}
+try:
+    out=subprocess.run(['/verif/bin/verif-sa','-describe'],capture_output=True,text=True,env=dict(os.environ,GOFLAGS='-mod=vendor')).stdout
+    cur=None
+    for line in out.splitlines():
+        m=re.match(r'### (C\d+)',line)
+        if m: cur=m.group(1); RULES[cur]=[]
+        m=re.match(r'\| `(C\d+\.[^`]+)`',line)
+        if m and cur: RULES[cur].append(m.group(1))
+except Exception as e:
+    pass
 checks=[];na=[]
 for p in props:
     i=p['id']
     if i in CLAIMS:
         text,note,tech=CLAIMS[i]
+        # the authoritative list of decided clauses is the analyser's own rule catalogue
+        ids=RULES.get(i,[])
+        if ids:
+            text=text+" Rules (clause of each in DESIGN.md §4 and in the evidence file): "+", ".join(ids)+"."
         checks.append({
           "property_id":i,
           "quick_cmd":"./check %s"%i,
@@ -26,7 +42,7 @@ for p in props:
 m={"version":1,
  "setup_cmd":"cd /verif/sa && GOFLAGS=-mod=vendor GOPROXY=off GOSUMDB=off GOTOOLCHAIN=local CGO_ENABLED=0 go build -o /verif/bin/verif-sa .",
  "hooks":{"guard":"verif","enable":"none: the static analysis needs no hooks or instrumentation in /repo; no build tag is used","baseline_off_cmd":"/verif/tools/baseline.sh /repo","source_commits":[],"add_only":True},
- "engines":[{"name":"verif-sa","path":"/verif/sa","serves_properties":sorted(CLAIMS.keys()),"kind_free_text":"repository-specific static analyser (go/packages + go/types + go/ssa of x/tools v0.29.0, vendored): path-fact/typestate dataflow with call summaries, dominating-guard queries, lockset, channel-operation classifier, stream-ownership rules, shape/mirror checks over the AST. Decides structural necessary conditions on every CFG path of every function; executes nothing."}],
+ "engines":[{"name":"verif-sa","path":"/verif/sa","serves_properties":sorted(CLAIMS.keys()),"kind_free_text":"repository-specific static analyser (go/packages + go/types + go/ssa of x/tools v0.29.0, vendored): path-fact/typestate dataflow with (result-sensitive) call summaries, dominating-guard queries, value provenance and symbolic expressions with helper inlining, lockset, channel-operation classifier, stream-ownership rules, parameter write-effects, loop-phi induction, shape/mirror checks over the AST, rename normalisation. Decides structural necessary conditions on every CFG path of every function; executes nothing."}],
  "checks":checks,
  "not_applicable":na,
  "notes":"Technique family: static analysis only. Every claim is at level 'other': the check decides named structural clauses (necessary conditions) of the property on all paths of the current source, listed in the evidence file together with what is not covered. Genuine defects found on the pinned tree were repaired by 'fix:' commits in /repo and are recorded in /verif/known_findings.json; see DESIGN.md §5."}
